@@ -53,7 +53,9 @@ func (m *Model) RecordReading(val float32) (*traits.MeterReading, error) {
 		now := m.meterReading.Clock().Now()
 		newVal := new.(*traits.MeterReading)
 		newVal.EndTime = timestamppb.New(now)
-	}))
+	}),
+		// leave the start time alone, and make sure a zero usage is recorded
+		resource.WithUpdatePaths("usage", "end_time"))
 }
 
 // Reset resets the meter to zero, updating both start and end times to now.
